@@ -25,7 +25,7 @@ pub fn stub_unlock_slow(_m: &parking_lot::RawMutex, _force_fair: bool) {
 /// Counting wakers built on a hand-written vtable of trivial functions (a `Wake`-trait `Arc`
 /// waker makes CBMC expand function pointers over the whole binary). Waker `id` carries
 /// `id + 1` as its data pointer: 1 = reader side, 2 = writer side.
-static mut WAKES: [usize; 2] = [0, 0];
+static mut WAKES: [usize; 4] = [0, 0, 0, 0];
 
 unsafe fn vt_clone(p: *const ()) -> RawWaker {
     RawWaker::new(p, &VTABLE)
@@ -38,6 +38,19 @@ static VTABLE: RawWakerVTable = RawWakerVTable::new(vt_clone, vt_wake, vt_wake, 
 
 const READER: u8 = 1;
 const WRITER: u8 = 2;
+/// Wakers already parked when a class is entered carry different identities from the wakers the
+/// checked operation polls with, so that an operation which must *replace* the stored waker
+/// (a parked side polled again, possibly from another task) is distinguishable from one that
+/// leaves a stale waker behind.
+const READER_OLD: u8 = 3;
+const WRITER_OLD: u8 = 4;
+
+fn is_reader(id: u8) -> bool {
+    id == READER || id == READER_OLD
+}
+fn is_writer(id: u8) -> bool {
+    id == WRITER || id == WRITER_OLD
+}
 
 fn mk_waker(side: u8) -> Waker {
     unsafe { Waker::from_raw(RawWaker::new(side as usize as *const (), &VTABLE)) }
@@ -49,7 +62,7 @@ fn wakes(side: u8) -> usize {
 
 fn reset_wakes() {
     unsafe {
-        WAKES = [0, 0];
+        WAKES = [0, 0, 0, 0];
     }
 }
 
@@ -191,11 +204,11 @@ fn prepare(
     {
         let mut g = inner.lock();
         if parked == READER {
-            g.waker = Some(mk_waker(READER));
-            m.parked = READER;
+            g.waker = Some(mk_waker(READER_OLD));
+            m.parked = READER_OLD;
         } else if parked == WRITER {
-            g.waker = Some(mk_waker(WRITER));
-            m.parked = WRITER;
+            g.waker = Some(mk_waker(WRITER_OLD));
+            m.parked = WRITER_OLD;
         }
         if closed != CLOSED_NO {
             g.closed = true;
@@ -338,17 +351,18 @@ fn one_op(cap: usize, len: usize, parked: u8, closed: u8, op: u8, size: usize) {
     if !proceed {
         // forced yield: self-wake, nothing else changes
         assert!(wakes(caller) == 1, "C12:coop_yield_self_wakes");
-        assert!(wakes(other) == 0, "C12:no_spurious_wake_of_other_side");
+        assert!(wakes(other) == 0 && wakes(READER_OLD) == 0 && wakes(WRITER_OLD) == 0,
+                "C12:no_spurious_wake_of_other_side");
         assert!(m.len == before.len && m.parked == before.parked && m.closed == before.closed,
                 "C12:coop_yield_preserves_state");
     } else {
         let progress_for_reader = m.len > before.len || (m.closed && !before.closed);
         let progress_for_writer = m.len < before.len || (m.closed && !before.closed);
-        if before.parked == READER && caller == WRITER && progress_for_reader {
-            assert!(wakes(READER) == 1, "C12:waiting_reader_woken_on_progress_or_close");
+        if is_reader(before.parked) && caller == WRITER && progress_for_reader {
+            assert!(wakes(before.parked) == 1, "C12:waiting_reader_woken_on_progress_or_close");
         }
-        if before.parked == WRITER && caller == READER && progress_for_writer {
-            assert!(wakes(WRITER) == 1, "C12:waiting_writer_woken_on_progress_or_close");
+        if is_writer(before.parked) && caller == READER && progress_for_writer {
+            assert!(wakes(before.parked) == 1, "C12:waiting_writer_woken_on_progress_or_close");
         }
     }
     check_state(&inner, &m);
@@ -368,11 +382,11 @@ fn drop_op(cap: usize, len: usize, parked: u8, drop_reader: bool) {
     }
     m.closed = true;
     m.parked = 0;
-    if before.parked == WRITER && drop_reader {
-        assert!(wakes(WRITER) == 1, "C12:waiting_writer_woken_on_progress_or_close");
+    if is_writer(before.parked) && drop_reader {
+        assert!(wakes(before.parked) == 1, "C12:waiting_writer_woken_on_progress_or_close");
     }
-    if before.parked == READER && !drop_reader {
-        assert!(wakes(READER) == 1, "C12:waiting_reader_woken_on_progress_or_close");
+    if is_reader(before.parked) && !drop_reader {
+        assert!(wakes(before.parked) == 1, "C12:waiting_reader_woken_on_progress_or_close");
     }
     check_state(&inner, &m);
     kani::cover!(true, "dropped");
